@@ -207,6 +207,8 @@ class Ops(object):
             return a + b
         if isinstance(a, tuple) and isinstance(op, ast.Mult) and concrete_int(b) is not None:
             return a * concrete_int(b)
+        if isinstance(a, tuple) and len(a) == 1 and isinstance(op, ast.Mult) and is_z3(b) and z3.is_int(b):
+            return self.list_repeat(list(a), b, node)        # (x,) * n with a symbolic n
         if isinstance(a, (SymList,)) or isinstance(b, (SymList,)):
             return self.seq_binop(op, a, b, node)
         if is_z3(a) and z3.is_seq(a) or is_z3(b) and z3.is_seq(b):
@@ -310,6 +312,14 @@ class Ops(object):
                 if cb < 0:
                     self.raise_builtin("ValueError", node)
                 return to_z3(a) * pow2(cb)
+            if self.opts.get("split_small_shifts") and not self.in_spec:
+                # contract option: a shift amount known to lie in [0, 8) (typically `i & 7`) is decided case by case, so
+                # that the mask is a concrete power of two on each path
+                bz = to_z3(b)
+                if not self.feasible(z3.Not(z3.And(bz >= 0, bz < 8))):
+                    for j in range(8):
+                        if self.decide(bz == j, "shift-amount"):
+                            return to_z3(a) * pow2(j) if ca is None else ca * (1 << j)
             # symbolic shift: x * pow2(s) with pow2 axiomatised (varints)
             self.oblige("no-raise", "shift-nonneg", b >= 0)
             return to_z3(a) * self.spec_pow2(to_z3(b))
@@ -337,6 +347,9 @@ class Ops(object):
                     nm = ~m
                     if (nm & (nm + 1)) == 0:           # ~(2^k-1): clear low bits
                         return a - (a % (nm + 1))
+                    if nm > 0 and (nm & (nm - 1)) == 0:  # ~(2^k): clear bit k (exact for any integer a)
+                        a = to_z3(a)
+                        return a - ((a / nm) % 2) * nm
             raise OutsideSubset("bitwise and with non-mask operand", node)
         if isinstance(op, ast.BitOr):
             if ca is not None and cb is None:
